@@ -66,7 +66,7 @@ impl Prop for C09 {
         "one case = (world, history of next-with-positions/set_offset to scanned offsets/drain/position queries) from (seed, run index); distinct = distinct hash of literal world+history; non-trivial = a reset issued after a newline was consumed, or exhaustion of an input with a trailing newline"
     }
     fn runs(&self) -> (u64, u64) {
-        (150_000, 4_000_000)
+        (500_000, 20_000_000)
     }
     fn expected_probes(&self) -> &'static [&'static str] {
         &[
